@@ -486,6 +486,7 @@ pub fn run(args: &Args) -> i32 {
         return if g.0 > 0 && g.0 == g.1 { 0 } else { 2 };
     }
     report.set("ops_by_kind", ops.json());
+    report.set("table_shapes", crate::hist::TABLE_SHAPES.json());
     report.set("op_failures_and_rejections", diag.json());
     report.assume("deltas are taken on the dataset checked out at the end version of the pair");
     report.finish()
